@@ -285,6 +285,9 @@ class FnTr:
                     n = self.bindname()
                     return s0 + [f"Py.bind (Py.idx v.{lname(cols[e.attr])} {c}) fun {n} =>"], n, "Int"
                 raise Untranslatable(f"{self.spec.lean}: node attribute `{ast.unparse(e)}`")
+            if t is not None and isinstance(t, str) and t in STRUCTS and e.attr in STRUCTS[t] and not isinstance(e.value, ast.Name):
+                # a field of a record that is the value of an expression (`xs[-1].id`)
+                return s0, f"({c}).{lname(e.attr)}", parse_type(STRUCTS[t][e.attr])
         if isinstance(e.value, ast.Name) and e.value.id in self.vars:
             sty = self.vars[e.value.id]
             if isinstance(sty, str) and sty in STRUCTS and e.attr in STRUCTS[sty]:
@@ -503,6 +506,21 @@ class FnTr:
                     return s1, f"(({a}).drop {lo})", ta                    # x[k:]
                 if sl.lower is None and isinstance(hi, int) and hi < 0:
                     return s1, f"(Py.dropEnd {a} {-hi})", ta                # x[:-k]
+                # x[lo:hi] with computed bounds (each an `int` or `None`): Python's `slice.indices` (Model/PyObj.lean `Py.slice`)
+                bs, bc = list(s1), []
+                for b in (sl.lower, sl.upper):
+                    if b is None:
+                        bc.append("(none : Option Int)")
+                        continue
+                    sb, cb, tb = self.tr(b)
+                    bs += sb
+                    if tb == "Int":
+                        bc.append(f"(some {cb})")
+                    elif tb == ("Option", "Int"):
+                        bc.append(cb)
+                    else:
+                        raise Untranslatable(f"{self.spec.lean}: slice bound `{ast.unparse(b)}` of type {tb}")
+                return bs, f"(Py.slice {a} {bc[0]} {bc[1]})", ta
             raise Untranslatable(f"slice `{ast.unparse(e)}`")
         s2, i, ti = self.tr(e.slice)
         if isinstance(ta, tuple) and ta[0] == "List":
@@ -543,6 +561,13 @@ class FnTr:
         save = self.tmp
         it_s, it_c, it_t = self.tr(g.iter)
         elem_t = self.elem_type(it_t)
+        if isinstance(g.target, ast.Name) and self.vars.get(g.target.id, elem_t) != elem_t:
+            # a comprehension has its own scope: its target is a different variable from a function-level variable of the same name
+            # (here: of another type), so it gets a name of its own in the one record of variables
+            e = self.rename_comp_target(e, g.target.id, f"{g.target.id}_c{self.tmp}")
+            self.tmp += 1
+            save = self.tmp
+            g = e.generators[0]
         self.bind_target_types(g.target, elem_t)
         if kind == "list":
             _, _, et = self.tr(e.elt)
@@ -568,6 +593,19 @@ class FnTr:
         n = self.bindname()
         step = f"Py.bindS (({code}) v) fun (v : {self.Vt}) =>"
         return [step], f"v.{tmp}", tmp_t
+
+    def rename_comp_target(self, e, old, new):
+        import copy
+        e = copy.deepcopy(e)
+        g = e.generators[0]
+        g.target.id = new
+        for part in ([e.elt] if hasattr(e, "elt") else [e.key, e.value]):
+            for nd in ast.walk(part):
+                if isinstance(nd, (ast.ListComp, ast.GeneratorExp, ast.DictComp, ast.SetComp, ast.Lambda)):
+                    raise Untranslatable(f"{self.spec.lean}: nested scope inside a comprehension whose target is renamed")
+                if isinstance(nd, ast.Name) and nd.id == old:
+                    nd.id = new
+        return e
 
     def elem_type(self, t):
         if isinstance(t, tuple) and t[0] == "List":
@@ -1038,6 +1076,21 @@ class FnTr:
                 s0, rc, rt = self.tr(tgt.value)
                 n = self.bindname()
                 return self.chain(s2 + s0 + [f"Py.bind (Py.setIdx v.{col} {rc} {x}) fun {n} =>"], f".next {{ v with {col} := {n} }}")
+            if isinstance(tgt.value, ast.Subscript) and isinstance(tgt.value.value, ast.Name):
+                # `xs[i].f = e` on a list of records: the record at position i is updated in place (right-hand side first, then `xs[i]`)
+                L = tgt.value.value
+                tl = self.var_type(L.id)
+                if isinstance(tl, tuple) and tl[0] == "List" and isinstance(tl[1], str) and tl[1] in STRUCTS and tgt.attr in STRUCTS[tl[1]]:
+                    s2, x, tx = self.tr(s.value, parse_type(STRUCTS[tl[1]][tgt.attr]))
+                    x = self.coerce(x, tx, parse_type(STRUCTS[tl[1]][tgt.attr]))
+                    s1, i, ti = self.tr(tgt.value.slice)
+                    if ti != "Int":
+                        raise Untranslatable(f"{self.spec.lean}: index of `{ast.unparse(tgt)}`")
+                    n1, n2 = self.bindname(), self.bindname()
+                    lv = self.lvalue(L)
+                    return self.chain(s2 + s1 + [f"Py.bind (Py.idx v.{lname(L.id)} {i}) fun {n1} =>",
+                                                 f"Py.bind (Py.setIdx v.{lname(L.id)} {i} {{ {n1} with {lname(tgt.attr)} := {x} }}) fun {n2} =>"],
+                                      ".next " + lv(n2))
             st, c, t = self.tr(s.value)
             lv = self.lvalue(tgt)
             return self.chain(st, ".next " + lv(c))
@@ -1112,7 +1165,56 @@ class FnTr:
         live = self.live_iteration(s)
         if live is not None:
             return live
+        alias = self.alias_iteration(s)
+        if alias is not None:
+            return alias
         return self.s_For_plain(s)
+
+    def alias_iteration(self, s):
+        """`for x in A` / `for i, x in enumerate(A)` over a list of RECORDS (mutable objects) whose body assigns `x.f = ...`: the loop
+        variable is an alias of the list element, so the write is a write into the list.  Lowered to an index loop that reads `A[i]` into
+        `x`, runs the body and writes `x` back to `A[i]`.  Sound because the body neither mentions `A` nor rebinds `x` nor leaves the
+        iteration early (checked below), so between the read and the write-back `x` is the only path to the element."""
+        it = s.iter
+        enum = isinstance(it, ast.Call) and ast.unparse(it.func) == "enumerate" and len(it.args) == 1
+        arr = it.args[0] if enum else it
+        if not isinstance(arr, ast.Name) or arr.id not in self.vars:
+            return None
+        tl = self.vars[arr.id]
+        if not (isinstance(tl, tuple) and tl[0] == "List" and isinstance(tl[1], str) and tl[1] in STRUCTS):
+            return None
+        if enum:
+            if not (isinstance(s.target, ast.Tuple) and len(s.target.elts) == 2 and all(isinstance(x, ast.Name) for x in s.target.elts)):
+                raise Untranslatable("enumerate target")
+            ivar, xvar = s.target.elts[0].id, s.target.elts[1].id
+        else:
+            if not isinstance(s.target, ast.Name):
+                return None
+            ivar, xvar = None, s.target.id
+        nodes = [n for b in s.body for n in ast.walk(b)]
+        writes = any(isinstance(n, ast.Attribute) and isinstance(n.ctx, ast.Store) and isinstance(n.value, ast.Name) and n.value.id == xvar
+                     for n in nodes)
+        if not writes:
+            return None
+        if any(isinstance(n, ast.Name) and n.id == arr.id for n in nodes):
+            raise Untranslatable(f"{self.spec.lean}: the loop body mentions `{arr.id}` while updating its elements through `{xvar}`")
+        if any(isinstance(n, ast.Name) and isinstance(n.ctx, ast.Store) and n.id in (xvar, ivar) for n in nodes):
+            raise Untranslatable(f"{self.spec.lean}: the loop body rebinds `{xvar}`")
+        if any(isinstance(n, (ast.Break, ast.Continue, ast.Return, ast.FunctionDef, ast.Lambda)) for n in nodes):
+            raise Untranslatable(f"{self.spec.lean}: early exit from a loop that updates the elements of `{arr.id}` in place")
+        if ivar is None:
+            ivar = self.fresh("Int", "k")
+        read = ast.parse(f"{xvar} = {arr.id}[{ivar}]").body[0]
+        back = ast.parse(f"{arr.id}[{ivar}] = {xvar}").body[0]
+        loop = ast.For(ast.Name(ivar, ast.Store()), ast.parse(f"range(len({arr.id}))").body[0].value, [read] + list(s.body) + [back], [], None)
+        for nd in ast.walk(loop):
+            if not hasattr(nd, "lineno"):
+                nd.lineno = nd.col_offset = nd.end_lineno = nd.end_col_offset = 0
+        if ivar not in self.vars and ivar not in self.extra_vars:
+            self.vars[ivar] = "Int"
+        if xvar not in self.vars:
+            self.vars[xvar] = tl[1]
+        return self.s_For_plain(loop)
 
     def s_For_plain(self, s):
         st, it, tit = self.tr(s.iter)
@@ -1586,7 +1688,7 @@ def regenerate(modules=None):
         if modules is not None and mod not in modules:
             continue
         out = ["-- GENERATED by harness/translate_algo.py from the current /repo sources. Do not edit.",
-               "import SwcVerif.Model.Py"] + [f"import SwcVerif.Gen.{m}" for m in MODULE_IMPORTS.get(mod, [])] + [
+               "import SwcVerif.Model.Py"] + [f"import {m}" if m.startswith("SwcVerif.") else f"import SwcVerif.Gen.{m}" for m in MODULE_IMPORTS.get(mod, [])] + [
                "set_option linter.unusedVariables false", "namespace Gen.Algo", ""]
         for name in MODULE_STRUCTS.get(mod, []):
             out.append(f"structure {name} where")
